@@ -140,7 +140,11 @@ pub enum Act {
     Close { file: u8 },
     Reopen { file: u8 },
     DropRing { ring: u8 },
+    /// create a ring in slot `ring` or, if that one is occupied, in the next empty slot
     NewRing { ring: u8, entries: u8 },
+    /// ring churn: drop the ring in slot `ring` (if any), then create `n` rings
+    /// in empty slots, one after the other
+    Churn { ring: u8, n: u8, entries: u8 },
     Crash,
 }
 
@@ -150,8 +154,12 @@ pub struct Scenario {
     pub lat: Lat,
     pub cache: Option<Cache>,
     pub capacity: Option<u64>,
-    /// requested `entries` per ring (1..=8), 1-2 rings
+    /// requested `entries` (1..=8) of the rings that exist from the start (1-4)
     pub rings: Vec<u8>,
+    /// additional ring slots that start empty and are filled by `NewRing` /
+    /// `Churn` (rings + spare slots <= 4)
+    #[serde(default)]
+    pub spare_slots: u8,
     /// per file: (initial content length, fill, made durable before the run)
     pub files: Vec<(u8, u8, bool)>,
     pub acts: Vec<Act>,
@@ -200,6 +208,8 @@ struct Outst {
 
 struct RingM {
     ring: Option<IoUring>,
+    /// creation number of the ring currently in this slot
+    born: u64,
     depth: usize,
     requested: u8,
     sq: Vec<Pushed>,
@@ -338,6 +348,10 @@ struct Interp<'a> {
     /// read buffers of cancelled reads (must stay sentinel-filled)
     cancelled_reads: Vec<(u64, usize)>,
     zombies: Vec<IoUring>,
+    ring_births: u64,
+    /// Some(n): an older ring was dropped while the ring born as `.0` was live
+    /// with entries in flight, and `.1` rings have been created since
+    churn_watch: Option<(u64, u32)>,
     /// (file slot, page index) touched by a submitted read/write
     touched_pages: BTreeSet<(usize, u64)>,
     crashed_with_inflight: bool,
@@ -382,7 +396,34 @@ impl<'a> Interp<'a> {
                         format!("requested {entries}, params say {depth}"),
                     );
                 }
+                // ring fds identify rings (AsyncFd, the registry): the fds of
+                // simultaneously live rings must be pairwise distinct
+                let fd = r.as_raw_fd();
+                if let Some((j, _)) = self
+                    .rings
+                    .iter()
+                    .enumerate()
+                    .find(|(_, o)| o.ring.as_ref().map(|x| x.as_raw_fd()) == Some(fd))
+                {
+                    self.out.fail(
+                        "ring-fd: a new ring got the fd of a ring that is still alive",
+                        format!("new ring for slot {idx} has fd {fd}, which is the fd of the live ring in slot {j}"),
+                    );
+                }
+                self.ring_births += 1;
+                if let Some((b, n)) = self.churn_watch {
+                    let still = self.rings.iter().any(|o| o.ring.is_some() && o.born == b && !o.outstanding.is_empty());
+                    if still {
+                        self.churn_watch = Some((b, n + 1));
+                        if n + 1 >= 2 {
+                            self.out.label("two-rings-created-after-dropping-older-while-newer-inflight");
+                        }
+                    } else {
+                        self.churn_watch = None;
+                    }
+                }
                 let m = &mut self.rings[idx];
+                m.born = self.ring_births;
                 m.ring = Some(r);
                 m.depth = depth;
                 m.requested = entries;
@@ -688,10 +729,17 @@ impl<'a> Interp<'a> {
                         }
                     }
                     Err(e) if e.kind() == std::io::ErrorKind::PermissionDenied => {
+                        self.out.label("read-on-write-only-handle");
                         if res >= 0 || self.arena[*buf].iter().any(|b| *b != SENTINEL) {
                             self.out.fail(
                                 "differential: ring read succeeded on a handle not opened for reading",
                                 format!("ring {ridx} ud {ud} {kind:?}: cqe {res}, read_at {e}; buffer {:?}", self.arena[*buf]),
+                            );
+                        } else if res != EBADF {
+                            // sim.rs exec_read: "The fd was not opened for reading: read(2) fails with EBADF"
+                            self.out.fail(
+                                "differential: access-mode failure did not complete with -EBADF",
+                                format!("ring {ridx} ud {ud} {kind:?}: cqe {res}, read_at {e}"),
                             );
                         }
                     }
@@ -707,9 +755,15 @@ impl<'a> Interp<'a> {
                         ENOSPC
                     }
                     Err(e) if e.kind() == std::io::ErrorKind::PermissionDenied => {
+                        self.out.label("write-on-read-only-handle");
                         if res >= 0 {
                             self.out.fail(
                                 "differential: ring write succeeded on a handle not opened for writing",
+                                format!("ring {ridx} ud {ud} {kind:?}: cqe {res}, write_at {e}"),
+                            );
+                        } else if res != EBADF {
+                            self.out.fail(
+                                "differential: access-mode failure did not complete with -EBADF",
                                 format!("ring {ridx} ud {ud} {kind:?}: cqe {res}, write_at {e}"),
                             );
                         }
@@ -835,6 +889,8 @@ impl<'a> Interp<'a> {
             drop(f.real.take());
             drop(f.twin.take());
         }
+        let was_live: Vec<bool> = self.rings.iter().map(|r| r.ring.is_some()).collect();
+        self.churn_watch = None;
         for r in self.rings.iter_mut() {
             for p in r.sq.drain(..) {
                 self.dead_crash.insert(p.ud);
@@ -855,8 +911,10 @@ impl<'a> Interp<'a> {
             self.open_file(i);
         }
         for i in 0..self.rings.len() {
-            let e = self.rings[i].requested;
-            self.new_ring(i, e);
+            if was_live[i] {
+                let e = self.rings[i].requested;
+                self.new_ring(i, e);
+            }
         }
     }
 
@@ -1007,7 +1065,52 @@ impl<'a> Interp<'a> {
             }
             Act::DropRing { ring } => {
                 let r = self.ring_idx(*ring);
+                self.drop_ring(r);
+            }
+            Act::NewRing { ring, entries } => {
+                let r = self.ring_idx(*ring);
+                if let Some(slot) = self.empty_slot_from(r) {
+                    self.new_ring(slot, *entries);
+                }
+            }
+            Act::Churn { ring, n, entries } => {
+                let r = self.ring_idx(*ring);
+                self.drop_ring(r);
+                for _ in 0..(*n).clamp(1, 3) {
+                    if self.out.failure.is_some() {
+                        break;
+                    }
+                    if let Some(slot) = self.empty_slot_from(r) {
+                        self.new_ring(slot, *entries);
+                    }
+                }
+                self.out.label("ring-churn");
+            }
+            Act::Crash => self.crash(),
+        }
+    }
+
+    fn empty_slot_from(&self, r: usize) -> Option<usize> {
+        let n = self.rings.len();
+        (0..n).map(|k| (r + k) % n).find(|i| self.rings[*i].ring.is_none())
+    }
+
+    fn drop_ring(&mut self, r: usize) {
+        {
+            {
                 if let Some(ring) = self.rings[r].ring.take() {
+                    // the seed for the churn class: a younger ring is alive with entries in flight
+                    let born = self.rings[r].born;
+                    if let Some(y) = self
+                        .rings
+                        .iter()
+                        .filter(|o| o.ring.is_some() && o.born > born && !o.outstanding.is_empty())
+                        .map(|o| o.born)
+                        .min()
+                    {
+                        self.churn_watch = Some((y, 0));
+                        self.out.label("older-ring-dropped-while-newer-inflight");
+                    }
                     let m = &mut self.rings[r];
                     if !m.outstanding.is_empty() {
                         self.out.label("drop-ring-with-inflight");
@@ -1023,19 +1126,13 @@ impl<'a> Interp<'a> {
                     self.w.real(|| drop(ring));
                 }
             }
-            Act::NewRing { ring, entries } => {
-                let r = self.ring_idx(*ring);
-                if self.rings[r].ring.is_none() {
-                    self.new_ring(r, *entries);
-                }
-            }
-            Act::Crash => self.crash(),
         }
     }
 }
 
 pub fn run(sc: &Scenario) -> Outcome {
-    let nrings = sc.rings.len().clamp(1, 2);
+    let ninit = sc.rings.len().clamp(1, 4);
+    let nrings = (ninit + sc.spare_slots as usize).clamp(1, 4);
     let nfiles = sc.files.len().clamp(1, 3);
     let w = World {
         fs: Arc::new(Mutex::new(Fs::new(fs_config(sc), sc.seed))),
@@ -1052,6 +1149,7 @@ pub fn run(sc: &Scenario) -> Outcome {
                 ring: None,
                 depth: 0,
                 requested: sc.rings.get(i).copied().unwrap_or(4),
+                born: 0,
                 sq: Vec::new(),
                 outstanding: BTreeMap::new(),
                 issued: Vec::new(),
@@ -1068,6 +1166,8 @@ pub fn run(sc: &Scenario) -> Outcome {
         dead_drop: BTreeSet::new(),
         cancelled_reads: Vec::new(),
         zombies: Vec::new(),
+        ring_births: 0,
+        churn_watch: None,
         touched_pages: BTreeSet::new(),
         crashed_with_inflight: false,
         cancels: 0,
@@ -1120,7 +1220,7 @@ pub fn run(sc: &Scenario) -> Outcome {
             }
         }
     }
-    for i in 0..nrings {
+    for i in 0..ninit {
         let e = it.rings[i].requested;
         it.new_ring(i, e);
     }
@@ -1200,7 +1300,7 @@ pub fn run(sc: &Scenario) -> Outcome {
         Lat::Range(..) => "lat-ranged",
     });
     out.label(if sc.cache.is_some() { "page-cache-on" } else { "page-cache-off" });
-    out.label(if nrings == 2 { "two-rings" } else { "one-ring" });
+    out.label(format!("ring-slots-{nrings}"));
     if sc.capacity.is_some() {
         out.label("capacity-limited");
     }
@@ -1271,7 +1371,8 @@ fn flag_strategy() -> BoxedStrategy<u8> {
 }
 
 fn act_strategy() -> BoxedStrategy<Act> {
-    let ring = 0u8..2;
+    // 12 = lcm(1..=4): uniform over the slots whatever their number
+    let ring = 0u8..12;
     let file = 0u8..3;
     let off = prop_oneof![3 => 0u16..=24, 1 => 0u16..=200];
     let len = prop_oneof![1 => Just(0u8), 8 => 1u8..=24];
@@ -1301,10 +1402,41 @@ fn act_strategy() -> BoxedStrategy<Act> {
         1 => file.clone().prop_map(|file| Act::Close { file }),
         1 => file.prop_map(|file| Act::Reopen { file }),
         1 => ring.clone().prop_map(|ring| Act::DropRing { ring }),
-        1 => (ring, 1u8..=8).prop_map(|(ring, entries)| Act::NewRing { ring, entries }),
+        1 => (ring.clone(), 1u8..=8).prop_map(|(ring, entries)| Act::NewRing { ring, entries }),
+        2 => (ring, 1u8..=3, 1u8..=8).prop_map(|(ring, n, entries)| Act::Churn { ring, n, entries }),
         1 => Just(Act::Crash),
     ]
     .boxed()
+}
+
+/// Whether `id` is listed with status "known" in known_findings.json.  While
+/// F-C18-1 is known the generator keeps every handle read+write (the probe
+/// replays carry the clause); once it is "fixed" (or gone) read-only and
+/// write-only handles are generated and the full clause is asserted.
+pub fn is_known(id: &str) -> bool {
+    static KNOWN: std::sync::OnceLock<Vec<String>> = std::sync::OnceLock::new();
+    KNOWN
+        .get_or_init(|| {
+            crate::engine::load_findings()
+                .into_iter()
+                .filter(|f| f.property == "C18" && f.status == "known")
+                .map(|f| f.id)
+                .collect()
+        })
+        .iter()
+        .any(|k| k == id)
+}
+
+/// bits 0-1: access mode, bit 2: O_DIRECT (see `open_mode`)
+fn mode_strategy() -> BoxedStrategy<u8> {
+    let direct = prop_oneof![4 => Just(0u8), 1 => Just(MODE_DIRECT)];
+    if is_known("F-C18-1") {
+        direct.boxed()
+    } else {
+        (prop_oneof![5 => Just(0u8), 1 => Just(1u8), 1 => Just(2u8)], direct)
+            .prop_map(|(a, d)| a | d)
+            .boxed()
+    }
 }
 
 pub fn strategy() -> BoxedStrategy<Scenario> {
@@ -1319,23 +1451,30 @@ pub fn strategy() -> BoxedStrategy<Scenario> {
         lat_strategy(),
         cache,
         capacity,
-        proptest::collection::vec(1u8..=8, 1..=2),
-        proptest::collection::vec(
-            ((0u8..=40, any::<u8>(), any::<bool>()), prop_oneof![4 => Just(0u8), 1 => Just(MODE_DIRECT)]),
-            1..=3,
+        (
+            prop_oneof![
+                3 => proptest::collection::vec(1u8..=8, 1..=1),
+                4 => proptest::collection::vec(1u8..=8, 2..=2),
+                2 => proptest::collection::vec(1u8..=8, 3..=3),
+                1 => proptest::collection::vec(1u8..=8, 4..=4),
+            ],
+            prop_oneof![3 => Just(0u8), 2 => Just(1u8), 1 => Just(2u8)],
         ),
+        proptest::collection::vec(((0u8..=40, any::<u8>(), any::<bool>()), mode_strategy()), 1..=3),
         proptest::collection::vec(act_strategy(), 1..40),
     )
-        .prop_map(|(seed, lat, cache, capacity, rings, fm, acts)| {
+        .prop_map(|(seed, lat, cache, capacity, (rings, spare), fm, acts)| {
             let (files, modes): (Vec<_>, Vec<_>) = fm.into_iter().unzip();
-            (seed, lat, cache, capacity, rings, files, modes, acts)
+            let spare_slots = spare.min(4 - rings.len() as u8);
+            (seed, lat, cache, capacity, rings, spare_slots, files, modes, acts)
         })
-        .prop_map(|(seed, lat, cache, capacity, rings, files, modes, acts)| Scenario {
+        .prop_map(|(seed, lat, cache, capacity, rings, spare_slots, files, modes, acts)| Scenario {
             seed,
             lat,
             cache,
             capacity,
             rings,
+            spare_slots,
             files,
             acts,
             modes,
@@ -1379,6 +1518,10 @@ pub struct Round {
     pub sleep_ms: u8,
     pub ops: Vec<SOp>,
     pub drain: SDrain,
+    /// ring churn before the pushes: drop the oldest side ring (if any), then
+    /// create this many side rings (0 = none)
+    #[serde(default)]
+    pub churn: u8,
 }
 
 #[derive(Clone, Debug, Serialize, Deserialize)]
@@ -1399,6 +1542,9 @@ pub struct SimScenario {
     /// a separate task loops on `readable()` and drains while the main task submits
     #[serde(default)]
     pub concurrent: bool,
+    /// a side ring is created *before* the main ring (so it is the older one)
+    #[serde(default)]
+    pub elder: bool,
 }
 
 struct SOut {
@@ -1754,9 +1900,41 @@ async fn sim_program(
             }
         }
     }
+    // side rings: never used for I/O, they only churn the ring registry
+    let mut side: Vec<IoUring> = Vec::new();
+    if sc.elder {
+        side.push(IoUring::new(2)?);
+    }
     let ring = IoUring::new(sc.depth.clamp(1, 8) as u32)?;
     let depth = ring.params().sq_entries() as usize;
     let ring_fd = ring.as_raw_fd();
+    let churn = |side: &mut Vec<IoUring>, n: u8| -> std::io::Result<()> {
+        if n == 0 {
+            return Ok(());
+        }
+        if !side.is_empty() {
+            if !sh.outstanding.borrow().is_empty() {
+                sh.label("sim-older-ring-dropped-while-main-inflight");
+            }
+            drop(side.remove(0));
+        }
+        for _ in 0..n.min(3) {
+            let r = IoUring::new(1)?;
+            let fd = r.as_raw_fd();
+            if fd == ring_fd || side.iter().any(|o| o.as_raw_fd() == fd) {
+                sh.fail(
+                    "ring-fd: a new ring got the fd of a ring that is still alive",
+                    format!("sim mode: side ring got fd {fd} (main ring fd {ring_fd})"),
+                );
+            }
+            side.push(r);
+        }
+        while side.len() > 4 {
+            drop(side.remove(0));
+        }
+        sh.label("sim-ring-churn");
+        Ok(())
+    };
     let p = std::rc::Rc::new(std::cell::RefCell::new(SimProg {
         sh: sh.clone(),
         sc: sc.clone(),
@@ -1807,6 +1985,7 @@ async fn sim_program(
             } else {
                 tokio::task::yield_now().await;
             }
+            churn(&mut side, r.churn)?;
             let mut pm = p.borrow_mut();
             for op in &r.ops {
                 pm.push(op);
@@ -1826,6 +2005,7 @@ async fn sim_program(
             if r.sleep_ms > 0 {
                 tokio::time::sleep(Duration::from_millis(r.sleep_ms as u64)).await;
             }
+            churn(&mut side, r.churn)?;
             {
                 let mut pm = p.borrow_mut();
                 for op in &r.ops {
@@ -1878,6 +2058,7 @@ async fn sim_program(
     sh.done.set(phase + 1);
     // keep files and ring alive until the controller is finished with this phase
     std::future::pending::<()>().await;
+    drop(side);
     drop(p);
     Ok(())
 }
@@ -2010,8 +2191,13 @@ fn round_strategy() -> BoxedStrategy<Round> {
         3 => (0u8..=2).prop_map(SDrain::Once),
         3 => Just(SDrain::All),
     ];
-    (prop_oneof![3 => Just(0u8), 2 => 1u8..=4], proptest::collection::vec(sop_strategy(), 0..6), drain)
-        .prop_map(|(sleep_ms, ops, drain)| Round { sleep_ms, ops, drain })
+    (
+        prop_oneof![3 => Just(0u8), 2 => 1u8..=4],
+        proptest::collection::vec(sop_strategy(), 0..6),
+        drain,
+        prop_oneof![4 => Just(0u8), 1 => 1u8..=3],
+    )
+        .prop_map(|(sleep_ms, ops, drain, churn)| Round { sleep_ms, ops, drain, churn })
         .boxed()
 }
 
@@ -2045,9 +2231,9 @@ pub fn sim_strategy() -> BoxedStrategy<SimScenario> {
         proptest::collection::vec(round_strategy(), 1..6),
         proptest::collection::vec(round_strategy(), 0..4),
         prop_oneof![1 => Just(None), 3 => (1u16..=8).prop_map(Some)],
-        (0u8..=3, any::<bool>()),
+        (0u8..=3, any::<bool>(), any::<bool>()),
     )
-        .prop_map(|(seed, tick_ms, lat, cache, depth, files, before, after, crash_at, (down_steps, concurrent))| SimScenario {
+        .prop_map(|(seed, tick_ms, lat, cache, depth, files, before, after, crash_at, (down_steps, concurrent, elder))| SimScenario {
             seed,
             tick_ms,
             lat,
@@ -2059,6 +2245,7 @@ pub fn sim_strategy() -> BoxedStrategy<SimScenario> {
             crash_at,
             down_steps,
             concurrent,
+            elder,
         })
         .boxed()
 }
@@ -2075,11 +2262,11 @@ fn check(tier: Tier, seed: u64) -> i32 {
         ctx.random("sim", tier.pick(6_000, 60_000), &|| sim_strategy(), &run_sim);
     }
     ctx.finish(
-        "direct: random histories over 1-2 rings (requested depth 1-8) and 1-3 files (plain or O_DIRECT handles) of one Fs driven directly (harness owns `now`): push read/write/fsync/cancel with optional (un)supported flags, pushes on a full queue, submit (three API variants), clock advances hitting the latency boundaries exactly (min-1, min, max, 99/100 ns), sync + full/partial/late drains (also across a clock advance and without sync), interleaved std-shim writes/syncs, closing/reopening files with ops in flight, dropping/recreating rings, crashes (Fs::crash + IoUringHostState::crash, stale ring handles kept and polled); io latency none/fixed/ranged, page cache on/off, optional capacity (ENOSPC). sim: one turmoil host, tick 1-3 ms, rounds of push/submit/drain through AsyncFd::readable (single task, or a separate drainer task that also waits on an idle ring), Sim::crash at a generated step + Sim::bounce, second program after the bounce. Every CQE is checked for exactly-once, visibility >= submit + minimum latency, result/buffer equality with the synchronous twin in CQE order; at the end all submitted entries must have completed, cancelled read buffers must be untouched, file contents (and the contents surviving a crash) must equal the twin. Non-trivial = (>= 2 entries in flight at once and at least one CQE yielded before an earlier-submitted one) or a submitted cancel or a crash with entries in flight. Distinct by scenario hash.",
+        "direct: random histories over 1-4 ring slots (1-4 rings from the start plus empty slots; requested depth 1-8; rings are dropped, created into empty slots and churned: drop one, then create 1-3) and 1-3 files (plain or O_DIRECT handles; read-only / write-only handles too unless F-C18-1 is listed as known) of one Fs driven directly (harness owns `now`): push read/write/fsync/cancel with optional (un)supported flags, pushes on a full queue, submit (three API variants), clock advances hitting the latency boundaries exactly (min-1, min, max, 99/100 ns), sync + full/partial/late drains (also across a clock advance and without sync), interleaved std-shim writes/syncs, closing/reopening files with ops in flight, dropping/recreating rings (ring fds of simultaneously live rings must be pairwise distinct), crashes (Fs::crash + IoUringHostState::crash, stale ring handles kept and polled); io latency none/fixed/ranged, page cache on/off, optional capacity (ENOSPC). sim: one turmoil host, tick 1-3 ms, optional side rings created before / churned next to the main ring, rounds of push/submit/drain through AsyncFd::readable (single task, or a separate drainer task that also waits on an idle ring), Sim::crash at a generated step + Sim::bounce, second program after the bounce. Every CQE is checked for exactly-once, visibility >= submit + minimum latency, result/buffer equality with the synchronous twin in CQE order; at the end all submitted entries must have completed, cancelled read buffers must be untouched, file contents (and the contents surviving a crash) must equal the twin. Non-trivial = (>= 2 entries in flight at once and at least one CQE yielded before an earlier-submitted one) or a submitted cancel or a crash with entries in flight. Distinct by scenario hash.",
         &[
             "side effects are compared in CQE yield order, which the crate documents as the order in which effects are applied (PendingApply / CompletionQueue rustdoc)",
             "no fault injection (io_error/short_read/corruption/sync probabilities are 0) and atomic writes (no block_size): these draw from the Fs RNG, which the twin cannot share",
-            "generated handles are opened read+write (plain or O_DIRECT with alignment 1); read-only/write-only handles only appear in the F-C18-1 probe",
+            "while F-C18-1 is listed as known every generated handle is opened read+write; otherwise read-only / write-only handles are generated as well and a ring op that the synchronous API refuses with PermissionDenied must complete with -EBADF (sim.rs exec_read/exec_write) without touching buffer or file; O_DIRECT handles use alignment 1",
             "entries of a dropped ring are exempt from exactly-once (nothing can observe them); they must not surface on another ring or change any file",
             "a read may be as fast as 100 ns only if its page was touched by an earlier submitted read/write on a non-O_DIRECT handle (page cache on); everything else needs the configured minimum",
             "cancel results follow the crate's rustdoc: target queued-or-matured-but-undrained => target -ECANCELED and cancel 0, otherwise cancel -ENOENT; an op whose file was closed completes with -EBADF",
